@@ -202,9 +202,20 @@ func (w *World) oldAddressChains() map[string]bool {
 func (w *World) explainConvergence(d []DiffItem, e *Expected, o *Observed) (rest []DiffItem, used []string) {
 	local := w.localPodChains()
 	oldAddr := w.oldAddressChains()
-	s1, s3 := false, false
+	s1, s3, n1 := false, false, false
+	flips := netRoleFlips(func(set string) []string {
+		if s := w.k0.Sets[set]; s != nil {
+			return s.Members
+		}
+		return nil
+	}, w.cl)
 	for _, x := range d {
 		switch {
+		case x.Kind == "set-members" && lostOnly(e.Sets[x.Object], o.Sets[x.Object], flips[x.Object]):
+			// the set held a CIDR in the other role (block vs exception) when the synchronisation started:
+			// createIPSet adds the new form and then deletes the "stale" old form by its bare key - the same
+			// hash:net member - so the CIDR is gone until the next synchronisation
+			n1 = true
 		case x.Kind == "extra-pod-chain" && local[x.Object] == nil:
 			s1 = true
 		case x.Kind == "extra-dispatch" && strings.HasPrefix(x.Target, "GLX-POD-") && local[x.Target] == nil:
@@ -226,7 +237,38 @@ func (w *World) explainConvergence(d []DiffItem, e *Expected, o *Observed) (rest
 	if s3 {
 		used = append(used, "S3")
 	}
+	if n1 {
+		used = append(used, "ipblock-role-change-member-lost")
+	}
 	return rest, used
+}
+
+// lostOnly: the observed set equals the expected one minus exactly (some of) the role-flipped members.
+func lostOnly(es *ExpSet, os *ObsSet, flips map[string]bool) bool {
+	if es == nil || os == nil || len(flips) == 0 {
+		return false
+	}
+	have := map[string]bool{}
+	for _, m := range os.Members {
+		have[m] = true
+	}
+	want := map[string]bool{}
+	missing := 0
+	for _, m := range es.Members {
+		want[m] = true
+		if !have[m] {
+			if !flips[strings.Fields(m)[0]] {
+				return false
+			}
+			missing++
+		}
+	}
+	for m := range have {
+		if !want[m] {
+			return false
+		}
+	}
+	return missing > 0
 }
 
 func (w *World) afterFirstSync() {
